@@ -13,8 +13,55 @@ import (
 
 // ---------------------------------------------------------------- D1 map ranges
 
-var d1Exceptions = map[string]string{
-	"catalog.prepareJSightSchema:range#1": "AddRule cannot fail here: every rule was Check()ed when it was built (buildRule) and the receiving schema was created two lines above, so it is not loaded; the rules land in a keyed collection of the library, so insertion order is immaterial",
+const d1ExceptionWhy = "AddRule cannot fail here: every rule was Check()ed when it was built and the receiving schema was created in this very function, so it is not loaded; the rules land in a keyed collection of the library, so insertion order is immaterial"
+
+// d1FreshSchemaRules: the frozen exception by role - the loop body's only call with
+// element data is AddRule on a schema this function has just created with the library's
+// constructor.
+func d1FreshSchemaRules(info *types.Info, fd *ast.FuncDecl, rs *ast.RangeStmt) bool {
+	ok := false
+	n := 0
+	ast.Inspect(rs.Body, func(x ast.Node) bool {
+		call, isCall := x.(*ast.CallExpr)
+		if !isCall {
+			return true
+		}
+		sel, isSel := call.Fun.(*ast.SelectorExpr)
+		if !isSel {
+			return true
+		}
+		f, isF := info.ObjectOf(sel.Sel).(*types.Func)
+		if !isF || f.Pkg() == nil {
+			return true
+		}
+		n++
+		if f.Name() != "AddRule" || !strings.Contains(f.Pkg().Path(), "jsight-schema-go-library") {
+			n += 100
+			return true
+		}
+		// receiver created in this function by a library constructor
+		id, isId := sel.X.(*ast.Ident)
+		if !isId {
+			return true
+		}
+		obj := info.ObjectOf(id)
+		ast.Inspect(fd.Body, func(y ast.Node) bool {
+			as, isAs := y.(*ast.AssignStmt)
+			if !isAs || len(as.Lhs) != 1 || len(as.Rhs) != 1 {
+				return true
+			}
+			if lid, isL := as.Lhs[0].(*ast.Ident); isL && info.ObjectOf(lid) == obj {
+				if ctor, isC := as.Rhs[0].(*ast.CallExpr); isC {
+					if g := Callee(info, ctor); g != nil && g.Pkg() != nil && strings.Contains(g.Pkg().Path(), "jsight-schema-go-library") {
+						ok = true
+					}
+				}
+			}
+			return true
+		})
+		return true
+	})
+	return ok && n == 1
 }
 
 // RuleD1: every range over a map is order-insensitive.
@@ -43,8 +90,8 @@ func RuleD1(c *Ctx) {
 			switch {
 			case why == "":
 				sc.Holds(key, pos, "order-insensitive body over "+types.ExprString(rs.X))
-			case d1Exceptions[key] != "":
-				sc.Exception(key, pos, d1Exceptions[key])
+			case d1FreshSchemaRules(info, fd, rs):
+				sc.Exception(key, pos, d1ExceptionWhy)
 			default:
 				sc.Violation(key, pos, fmt.Sprintf("range over map %s is order-sensitive: %s — Go randomises map iteration, so the same project can give different diagnostics or output from run to run", types.ExprString(rs.X), why))
 			}
